@@ -357,7 +357,9 @@ class PDDLWriter:
             )
         ):
             self.pddl_keywords |= TEMPORAL_PDDL_KEYWORDS
-        if isinstance(self.problem, ContingentProblem):
+        if isinstance(self.problem, ContingentProblem) or any(
+            isinstance(a, SensingAction) for a in self.problem.actions
+        ):
             self.pddl_keywords |= CONTINGENT_PDDL_KEYWORDS
 
     def _write_parameters(self, out, a):
